@@ -548,6 +548,25 @@ it0
         forall|r: int| 0 <= r < old(norms)@.len() ==> #[trigger] final(norms)@[r] == rowmax(self.rowval@, self.nzval@, r, self.rowval@.len() as int, f_zero()),
 //@end
 
+//@fn file=src/algebra/csc/matrix_math.rs in="MatrixMath<T> for CscMatrix<T>" name=col_sums rules=R1,R6,R3,zipidx:1=m
+//@contract
+    requires self.colptr_ok(), old(sums)@.len() == self.n,
+    ensures
+        final(sums)@.len() == old(sums)@.len(),
+        // sums[c] = sum of the stored entries of column c, in storage order
+        forall|c: int| 0 <= c < self.n ==> #[trigger] final(sums)@[c] == fold_sum(self.nzval@.subrange(self.colptr@[c] as int, self.colptr@[c + 1] as int), self.colptr@[c + 1] - self.colptr@[c]),
+//@pre
+        proof { assert(self.nzval@.len() == self.nzval.len()); }
+//@iter 1
+it0
+//@loop 1
+        invariant
+            it0.seq().len() == r14_n1, range_from(it0.seq(), 0), r14_n1 == self.n, col_ctr == it0.index@, sums@.len() == self.n, self.colptr_ok(),
+            forall|c: int| 0 <= c < it0.index@ ==> #[trigger] sums@[c] == fold_sum(self.nzval@.subrange(self.colptr@[c] as int, self.colptr@[c + 1] as int), self.colptr@[c + 1] - self.colptr@[c]),
+//@body_start 1
+            proof { let gc = col_ctr as int; assert(self.colptr@[gc] <= self.colptr@[gc + 1] <= self.colptr@[self.n as int]); }
+//@end
+
 //@fn file=src/algebra/csc/matrix_math.rs in="MatrixMath<T> for CscMatrix<T>" name=row_sums rules=R1,R6,zipidx:1=ii
 //@contract
     requires self.rowval@.len() == self.nzval@.len(), old(sums)@.len() == self.m, rows_below(*self, self.m as int),
